@@ -191,7 +191,8 @@ def run(workers, first, last):
     print('todo', len(todo), flush=True)
     import threading
     lock = threading.Lock()
-    slots = list(range(workers))
+    base = int(os.environ.get('MUT_SLOT_BASE', '0'))
+    slots = list(range(base, base + workers))
 
     def work(m):
         with lock:
@@ -212,8 +213,28 @@ def run(workers, first, last):
         list(ex.map(work, todo))
 
 
+def recheck(slot, props, ids):
+    """re-evaluates mutants against other (or extended) checks; the newest record of an id wins in the report"""
+    muts = {json.loads(l)['id']: json.loads(l) for l in open(os.path.join(OUT, 'mutants.jsonl'))}
+    for i in ids:
+        m = dict(muts[i], props=props)
+        t0 = time.time()
+        r = evaluate(m, slot)
+        r['secs'] = round(time.time() - t0, 1)
+        r['recheck'] = True
+        with open(os.path.join(OUT, 'results.jsonl'), 'a') as f:
+            f.write(json.dumps(r) + '\n')
+        print(r['id'], r['file'], r['line'], r['op'], r['status'], r.get('detected_by'), (r.get('first') or '')[:160], flush=True)
+
+
 def report():
-    rs = [json.loads(l) for l in open(os.path.join(OUT, 'results.jsonl'))]
+    rs = {}
+    for l in open(os.path.join(OUT, 'results.jsonl')):
+        r = json.loads(l)
+        if r['id'] in rs and rs[r['id']]['status'] == 'detected' and r['status'] == 'UNDETECTED':
+            continue  # a recheck against other properties does not undo an earlier detection
+        rs[r['id']] = r
+    rs = [rs[k] for k in sorted(rs)]
     from collections import Counter
     c = Counter(r['status'] for r in rs)
     print('mutants evaluated', len(rs), dict(c))
@@ -232,5 +253,7 @@ if __name__ == '__main__':
         a = int(sys.argv[3]) if len(sys.argv) > 3 else 0
         b = int(sys.argv[4]) if len(sys.argv) > 4 else 10 ** 9
         run(w, a, b)
+    elif sys.argv[1] == 'recheck':
+        recheck(int(sys.argv[2]), sys.argv[3], [int(x) for x in sys.argv[4:]])
     else:
         report()
